@@ -16,6 +16,7 @@ func scenReplay(sc *eng.Scen, r *eng.ScenResult) map[string]any {
 		"fault_s2c": sc.FaultS2C.String(),
 		"msgs_a":    len(sc.SizesA),
 		"msgs_b":    len(sc.SizesB),
+		"write_err": fmt.Sprintf("c2s write #%d, s2c write #%d (0 = none)", sc.WriteErrC2S, sc.WriteErrS2C),
 	}
 	if r != nil {
 		m["elapsed_virtual"] = r.Elapsed.String()
@@ -79,6 +80,18 @@ func TestC01(t *testing.T) {
 
 func runC01(c *mon.Case) {
 	sc := eng.RandScen(c.Rng, c.Tier, c.Idx)
+	if c.Idx%8 == 5 {
+		// one write of the transport fails with an error instead of
+		// losing its packet silently (the connection may give up; what it
+		// delivered must still be a prefix)
+		k := 1 + c.Rng.Intn(6*(int(sc.Conf.N)+1))
+		if c.Rng.Intn(2) == 0 {
+			sc.WriteErrC2S = k
+		} else {
+			sc.WriteErrS2C = k
+		}
+		c.Shard.Count("scenarios_with_a_transport_write_error", 1)
+	}
 	r := eng.RunScen(c.T, sc, eng.Hooks{OnLeak: leakHookInconc(c, sc)})
 	if r.ConnErrC != nil || r.ConnErrS != nil {
 		c.Shard.Violate("handshake-failed-clean-link",
